@@ -443,6 +443,11 @@ func checkC07(r *Run) []Violation {
 			// attempt, and still no dump request reached the master
 			vs = append(vs, Violation{"C07", "dump-count", fmt.Sprintf("the attempt connected and authenticated but never sent a binlog-dump request (position %v); Stream returned %s", expectedRequest(r, i), errText(att.StreamErr)), i})
 		}
+		if att.Returned && !att.Dialed && len(att.Causes) == 0 && !att.Hang && !att.StepCapped {
+			// nothing was wrong with the call (live context, reachable master) and it
+			// came back without even opening a connection
+			vs = append(vs, Violation{"C07", "dump-count", fmt.Sprintf("the Stream call returned without contacting the master: no connection, no binlog-dump request (position %v); Stream returned %s", expectedRequest(r, i), errText(att.StreamErr)), i})
+		}
 		if att.Master != nil && len(att.Master.Dumps) > 0 {
 			m := att.Master
 			d := m.Dumps[0]
@@ -692,6 +697,9 @@ func checkC08(r *Run) []Violation {
 	for _, c := range r.calls {
 		if c.ScribbleNote != "" {
 			vs = append(vs, Violation{"C08", "scribble-propagated", c.ScribbleNote, c.Attempt})
+		}
+		if c.MarshalNote != "" {
+			vs = append(vs, Violation{"C08", "mutated-after-delivery", c.MarshalNote, c.Attempt})
 		}
 	}
 	return vs
